@@ -257,8 +257,10 @@ fn run_measure(sc: &Value, t: &mut Tracer) {
 				))
 				.unwrap();
 			if rates.len() > 1 {
-				// across a change: the impulse comes half a second after the switch (one frame wide at any rate)
-				tr.play(StepData((switch_ms as f64 + 500.0) / 1000.0, true)).unwrap();
+				// across a change: the impulse comes half a second after the switch (one frame wide at any rate) - or, if
+				// asked for, at a given time before it, so that its echo is due after the switch
+				let at = sc["impulse_ms"].as_f64().unwrap_or(switch_ms as f64 + 500.0);
+				tr.play(StepData(at / 1000.0, true)).unwrap();
 			} else {
 				let mut frames = vec![Frame::ZERO; 40];
 				frames[0] = Frame::new(0.5, 0.5);
@@ -335,6 +337,8 @@ fn run_measure(sc: &Value, t: &mut Tracer) {
 			}
 		}
 	}
+	// (an echo in flight when the rate changes may be dropped: then there is nothing to measure)
+	let what = if what == "echo" && sc.get("impulse_ms").is_some() { "echo_in_flight" } else { what };
 	t.ev(json!({"a": "measure", "what": what, "ms": result.unwrap_or(-1), "secs1000": secs1000, "rmin": rmin,
 		"cbf": cbf, "srcms": unit / src_rate as i64, "unit": unit, "rates": rates}));
 	t.ev(json!({"a": "end"}));
